@@ -176,6 +176,18 @@ CHECKS['C12'] = (
  'on 6-14 argument vectors and list sizes 0-3; disagreements with titanfp are arbitrated by an independent evaluator of FPCore text.',
  'titanfp is the trusted reference (its known overflow quirk under directed modes is arbitrated by the text evaluator and not '
  'reported); empty tensors are inconclusive for the compile direction; zero sign not compared.', '§5 C12')
+CHECKS['C14'] = (
+ 'bounded exhaustive enumeration of programs x pinned contexts and argument formats run on ALL members of the argument formats, '
+ 'traced values checked for membership in the inferred formats; exhaustive check of abstract format arithmetic over all format '
+ 'pairs and all members of a window',
+ 'Part P: every program of five families (REAL chains with carries, comparison/logb refinements, loops with known and symbolic '
+ 'lengths under loop_iter_limit 1/2/10, helper calls, literal sets/lists/selection) is analysed for every cell of a context x '
+ 'argument-format pool and executed on every member of the argument formats; every traced expression, definition, merge, call and '
+ 'result value must be a member of the reported format (membership from an independent model of the public format parameters), and '
+ 'round_is_identity sites must change no value.  Part F: 520 abstract formats x 16 special-flag sets, all pairs, all members with '
+ '|x| <= 8 on the 2^-4 grid, for + - * neg abs pos | & <= format() from_format.',
+ 'Executions that raise are not judged; only the first violating event of an execution is reported; analyses that themselves '
+ 'raise ValueError on ordinary programs are counted, not judged.', '§5 C14')
 PENDING = {}
 
 def main():
